@@ -63,8 +63,14 @@ def verify_function(spec, reg):
             # of its free variables (declared as params); the rest of the
             # function is NOT verified and is listed as such
             import ast as _ast, hashlib as _hl
-            hit = [n for n in _ast.walk(fsrc.node) if isinstance(n, _ast.stmt) and
-                   (_ast.get_source_segment(fsrc.src, n) or '').startswith(spec['fragment'])]
+            if spec.get('fragment_marker'):
+                # robust locator: the top-level statement of the function that
+                # contains the marker text (survives edits of its first line)
+                hit = [n for n in fsrc.node.body if spec['fragment_marker'] in
+                       (_ast.get_source_segment(fsrc.src, n) or '')]
+            else:
+                hit = [n for n in _ast.walk(fsrc.node) if isinstance(n, _ast.stmt) and
+                       (_ast.get_source_segment(fsrc.src, n) or '').startswith(spec['fragment'])]
             if len(hit) != 1:
                 raise SpecError('fragment %r matches %d statements of %s'
                                 % (spec['fragment'], len(hit), spec['qualname']))
